@@ -1111,7 +1111,7 @@ func (f *Frame) recovers() bool {
 
 // isRangeIndex recognises go/ssa's hidden range index: phi [-1, phi+1].
 func isRangeIndex(phi *ssa.Phi) bool {
-	if phi.Comment != "rangeindex" || len(phi.Edges) != 2 {
+	if phi.Comment != "rangeindex" || len(phi.Edges) < 2 {
 		return false
 	}
 	okInit, okInc := false, false
@@ -1120,18 +1120,23 @@ func isRangeIndex(phi *ssa.Phi) bool {
 		case *ssa.Const:
 			if x.Value != nil && x.Value.ExactString() == "-1" {
 				okInit = true
+				continue
 			}
+			return false
 		case *ssa.BinOp:
 			if x.Op == token.ADD && x.X == phi {
 				if c, ok := x.Y.(*ssa.Const); ok && c.Value != nil && c.Value.ExactString() == "1" {
 					okInc = true
+					continue
 				}
 			}
+			return false
+		default:
+			return false
 		}
 	}
 	return okInit && okInc
 }
-
 
 // assignsArray resolves the heap array named by an assigns item of a callee contract,
 // using dummy argument terms (only the types matter).
